@@ -166,6 +166,14 @@ def run_action(tr, inp):
     raise AssertionError(kind)
 
 
+def _signal_delivers(tr, emitted):
+    n0 = len(emitted)
+    tr.refresh.emit("verif-probe")
+    ok = len(emitted) == n0 + 1
+    del emitted[n0:]
+    return ok
+
+
 # ---------------------------------------------------------------- oracles
 def tracklet_components(g):
     h = nx.Graph()
@@ -353,6 +361,7 @@ def replay(failure):
                 "C11.no_refresh": len(emitted) == 0,
                 "C11.registry_unchanged": S0["feature_keys"] == S1["feature_keys"] and S0["counter"] == S1["counter"],
                 "C20.refused_emits_none": len(emitted) == 0,
+                "C20.signal_delivers_after_refusal": _signal_delivers(tr, emitted),
             }
             if ob == "C03.refusal_type":
                 from funtracks.exceptions import InvalidActionError
@@ -361,7 +370,8 @@ def replay(failure):
             if ob in checks:
                 return (not checks[ob]), f"refused with {type(exc).__name__}: {exc}; pre={_brief(S0)} post={_brief(S1)}"
             return False, f"action refused ({type(exc).__name__}: {exc}) but obligation {ob} is about an accepted edit"
-        if ob.startswith("C11") or ob in ("C20.refused_emits_none", "C03.refusal_type"):
+        if ob.startswith("C11") or ob in ("C20.refused_emits_none", "C20.signal_delivers_after_refusal",
+                                          "C03.refusal_type"):
             return False, "action accepted but obligation is about a refused edit"
         emitted1 = list(emitted)
         detail = f"pre={_brief(S0)} post={_brief(S1)}"
@@ -550,6 +560,7 @@ def replay(failure):
             "C02.undo_redo_return": r1 is True and r2 is True,
             "C02.undo_stack_kept": same_history(S1, S3),
             "C20.undo_one_refresh": len(e2) == 1 and len(e3) == 1,
+            "C20.signal_delivers_after_edit": _signal_delivers(tr, emitted),
             "C01.inverse_applies": True,
         }
         if ob in table:
